@@ -418,7 +418,8 @@ def arguments(draw, ctx, symbolic=None, allow_arrays=True, allow_lists=True, max
     nkw = draw(st.integers(0, max_kw))
     whole = [n for n, (t, r, c, sym) in ctx.arrays.items() if allow_arrays]
     pos = []
-    plain = sorted(n for n, (t, r, c, sym) in ctx.arrays.items() if allow_arrays and not sym)
+    # (arrays named p<digits> are p-arrays in tdm programs -- passed by name, no arithmetic)
+    plain = sorted(n for n, (t, r, c, sym) in ctx.arrays.items() if allow_arrays and not sym and not (n[0] == "p" and n[1:].isdigit()))
     for _ in range(npos):
         if plain and draw(st.integers(0, 9)) == 0:
             # elementwise sum / difference of two equally shaped arrays (possibly the same one twice)
